@@ -48,6 +48,22 @@ fn try_run_builtin(
     let cmd = &cl.commands[idx_cmd];
     let tokens = cmd.tokens.clone();
     let cname = tokens[0].1.clone();
+    if tools::is_builtin(&cname) {
+        // a redirect target that cannot be opened fails the command
+        // before it runs, like it does for external commands.
+        for item in &cmd.redirects_to {
+            if item.2.starts_with('&') {
+                continue;
+            }
+            match tools::create_raw_fd_from_file(&item.2, item.1 == ">>") {
+                Ok(fd) => libs::close(fd),
+                Err(e) => {
+                    println_stderr!("cicada: {}: {}", item.2, e);
+                    return Some(CommandResult::error());
+                }
+            }
+        }
+    }
     if cname == "alias" {
         let cr = builtins::alias::run(sh, cl, cmd, capture);
         return Some(cr);
